@@ -307,6 +307,34 @@ def optres(ex, name, d, recv, args, node, st):
         out = ex.bind(_apply(ex, f, (("payload", v),), s_ok), lambda s, r: [(s, ("val", (kind, r) if name == "map" else r))])
         out.append((s_err, ("val", ("err", ("errof", v)) if kind == "ok" else ("none",))))
         return out
+    if name in ("filter", "is_some_and", "is_ok_and", "is_none_or") and args:
+        # Option::filter(p): Some(x) if p(&x) else None; is_some_and(p): p(x) on Some, false on None
+        f = args[0]
+        if tag in ("err", "none"):
+            return [(st, ("val", v if name == "filter" else lit(name == "is_none_or")))]
+        outs = []
+        if tag in ("ok", "some"):
+            s_ok, pay = st, v[1]
+        else:
+            s_ok = st
+            s_err = st.fork()
+            ex.effect(s_ok, "assume_ok", (v,), node=node)
+            ex.effect(s_err, "assume_fail", (v,), node=node)
+            pay = ("payload", v)
+            outs.append((s_err, ("val", ("none",) if name == "filter" else lit(name == "is_none_or"))))
+
+        def decide(s, r):
+            if name != "filter":
+                return [(s, ("val", r))]
+            if r == TRUE:
+                return [(s, ("val", ("some", pay)))]
+            if r == FALSE:
+                return [(s, ("val", ("none",)))]
+            s_no = s.fork()
+            ex.effect(s, "assume", (r, TRUE), node=node)
+            ex.effect(s_no, "assume", (r, FALSE), node=node)
+            return [(s, ("val", ("some", pay))), (s_no, ("val", ("none",)))]
+        return ex.bind(_apply(ex, f, (pay,), s_ok), decide) + outs
     if name in ("map_or", "map_or_else"):
         dflt, f = args[0], args[1]
         if tag in ("ok", "some"):
@@ -512,8 +540,10 @@ def _drive(ex, name, it, args, node, st):
                 else:
                     exits.append({"eff": s2.eff, "out": o})
         alive = nxt
+    fold_kw = {}
     if name == "fold" and len(args) == 2:
         acc = ("sym", next(ex.counter), "acc")
+        fold_kw = {"fold_init": args[0], "fold_acc": acc}
         nxt = []
         for s, v in alive:
             for s2, o in _apply(ex, args[1], (acc, v), s):
@@ -543,10 +573,12 @@ def _drive(ex, name, it, args, node, st):
     if (name == "collect" and coll_kind is None and len(alive) == 1 and not alive[0][0].eff and not exits and pipeline
             and all(x == "map" for x in pipeline)):
         # pure element-wise mapping: keep it as a term (the mapped sequence has the base's length and order)
+        if alive[0][1] == elem and orient == "fwd" and coll_kind is None and not (base[0] == "app" and base[1] in ("chars", "bytes", "keys", "values", "lines", "char_indices")):
+            return [(st, ("val", base))]     # element-wise identity (e.g. boxing every element): the same sequence
         return [(st, ("val", app("map_of", ("iter", base, orient, ()), alive[0][1], elem)))]
     paths = [{"eff": s.eff, "out": ("val", v)} for s, v in alive]
     e = ex.effect(st, "foreach", (it,), node=node, loop=loop_id, elem=elem, paths=paths, exits=exits,
-                  results=[v for _, v in alive], driver=name, pipeline=tuple(pipeline), elem_fail=elem_fail, filtered=filtered)
+                  results=[v for _, v in alive], driver=name, pipeline=tuple(pipeline), elem_fail=elem_fail, filtered=filtered, **fold_kw)
     outs = []
     coll = app("collected", lit(loop_id))
     ex.loops = getattr(ex, "loops", {})
